@@ -197,7 +197,7 @@ fn run_e1_property(id: &str, thorough: bool, ev: &mut Evidence, t0: Instant) {
         ev.families.push(r);
     }
     if id == "C03" && !report::stopped() {
-        for mn in [1usize, 3, 50, 1_000_000, (1usize << 32) + 1] {
+        for mn in [1usize, 3, 50, 255, 300, 65_535, 70_000, 1_000_000, (1usize << 32) - 1, (1usize << 32) + 1] {
             let o = e1::E1Opts { prop: id, checks, move_number: mn, deadline, chunk: 1, roots_only: false, max_turns: 1 };
             let mut r = e1::run_family(&families::f1(), &o);
             r.family = format!("{} — starting move number {}", r.family, mn);
